@@ -69,6 +69,7 @@ func (r *pwRun) checkCommitted() *core.Violation {
 			return pviol("committed_entries_unreadable", fmt.Sprintf("node %d (incarnation %d): hard state says commit=%d but entries [%d,%d] cannot be read (first=%d last=%d): %v",
 				n.idx, n.inc, hs.Commit, lo, hs.Commit, first, last, err), map[string]string{"node_role": r.roleOf(n.idx)})
 		}
+		taught := false
 		for _, e := range ents {
 			d := pwEnt{term: e.Term, dig: pwFnv(e.Data), typ: e.Type, set: true}
 			for uint64(len(r.canon)) < e.Index {
@@ -78,6 +79,7 @@ func (r *pwRun) checkCommitted() *core.Violation {
 			if !c.set {
 				*c = d
 				r.canonBy = append(r.canonBy, n.idx)
+				taught = true
 				continue
 			}
 			if *c != d {
@@ -86,6 +88,13 @@ func (r *pwRun) checkCommitted() *core.Violation {
 			}
 		}
 		n.checked = hs.Commit
+		if taught {
+			// the agreed log now rests on what this disk says: a crash image of the node must not
+			// be cut before this instant (the entries would never have been committed by anybody)
+			r.c.net.mu.Lock()
+			n.observe(n.disk.Len(), "commit_read")
+			r.c.net.mu.Unlock()
+		}
 	}
 	return nil
 }
